@@ -2,9 +2,11 @@
 package vrt
 
 import (
+	"encoding/binary"
 	"encoding/json"
 	"flag"
 	"fmt"
+	"hash/fnv"
 	"os"
 	"strings"
 	"time"
@@ -96,6 +98,19 @@ func (r *Result) Sample(x any) {
 	if len(r.Samples) < 4 {
 		r.Samples = append(r.Samples, x)
 	}
+}
+
+// SetDistinctKeys sets distinct_nontrivial from a set of case keys and dumps their hashes so that the
+// driver can count the union over shards exactly (instead of summing per-shard counts).
+func (r *Result) SetDistinctKeys(m map[string]struct{}) {
+	r.DistinctNontrivial = int64(len(m))
+	buf := make([]byte, 0, 8*len(m))
+	for k := range m {
+		h := fnv.New64a()
+		h.Write([]byte(k))
+		buf = binary.LittleEndian.AppendUint64(buf, h.Sum64())
+	}
+	os.WriteFile(fmt.Sprintf("distinct_%s_%d.bin", *Sub, *Shard), buf, 0o644)
 }
 
 func (r *Result) Finish() {
